@@ -327,7 +327,7 @@ class MbootCore:
                     H.append(("key_blob_dek", key_sel, bytes(buf).hex(), OK))
                     return OK
 
-                return self.generic(OK, tag), self._in_phase(tag, count_or_len, fin_dek, idx, fo)
+                return self.resp(R_KEY_BLOB, OK, count_or_len), self._in_phase(tag, count_or_len, fin_dek, idx, fo)
             blob = key_blob_of(self.keys.get(-1, b""), key_sel, count_or_len)
             H.append(("key_blob_get", key_sel, count_or_len, OK))
             return self.resp(R_KEY_BLOB, OK, len(blob), flags=1), self._out_phase(tag, blob, fo)
@@ -355,7 +355,7 @@ class MbootCore:
                     H.append(("kp_set_user_key", ktype, bytes(buf).hex(), OK))
                     return OK
 
-                return self.generic(OK, tag), self._in_phase(tag, length, fin_key, idx, fo)
+                return self.resp(R_KEY_PROV, OK, length), self._in_phase(tag, length, fin_key, idx, fo)
             if op == 5:
                 length = p[2]
 
@@ -364,7 +364,7 @@ class MbootCore:
                     H.append(("kp_write_key_store", len(buf), OK))
                     return OK
 
-                return self.generic(OK, tag), self._in_phase(tag, length, fin_ks, idx, fo)
+                return self.resp(R_KEY_PROV, OK, length), self._in_phase(tag, length, fin_ks, idx, fo)
             if op == 6:
                 H.append(("kp_read_key_store", len(self.key_store), OK))
                 if not self.key_store:
